@@ -241,7 +241,7 @@ def run_op(op):
 def child_limits(op):
     n = op.get("size_hint", 50)
     return {"cpu_s": int(op.get("cpu_s", 20 + n // 20)), "as_bytes": op.get("as_bytes", 4 << 30),
-            "wall_s": op.get("wall_s", 900)}
+            "wall_s": op.get("wall_s", 900), "as_extra": op.get("as_extra")}
 
 
 def run_blocks(op):
